@@ -17,7 +17,7 @@ from .c03 import _fresh_policy_answer
 
 ID = "C11"
 LEVEL = "exploration"
-QUICK_RUNS = 800
+QUICK_RUNS = 3200
 RULE = ("Each run: LSHNearest(n_dimensions 1..6, n_tables 1..4) over a drawn policy, d in 1..4, integer-grid contexts, "
         "history fit + partial_fit* with restarts, n_jobs in {1,2,3,5,-1} and a drawn backend; queries: stored rows, "
         "positive multiples c*row, the zero vector (all projections exactly 0), random rows; every training operation and "
